@@ -423,7 +423,40 @@ func (n *Node) CurrentParams(height uint32) (*NextParams, error) {
 		out.Idx = append(out.Idx, k.Index)
 		out.Weights = append(out.Weights, v.BFTWeight())
 	}
+	// Cross-check with the chain content (oracle audit, finding 7): the set in force at `height` is what the latest validator update
+	// in a block BELOW that height returned (genesis configuration otherwise). The engine's answer is used by the builders of valid
+	// blocks and aggregate commits; a set taking effect at the wrong height would otherwise be mirrored.
+	if height <= n.Tip().Header.Height+1 && height > n.Cfg.GenesisHeight {
+		want := n.ScriptedParams(height)
+		ww := map[int]uint64{}
+		for i, ix := range want.Idx {
+			ww[ix] = want.Weights[i]
+		}
+		same := len(ww) == len(out.Idx) && want.Precommit == out.Precommit && want.Cert == out.Cert
+		for i, ix := range out.Idx {
+			same = same && ww[ix] == out.Weights[i]
+		}
+		if !same {
+			return nil, fmt.Errorf("BFT-PARAMETERS: the engine reports validators %v weights %v thresholds %d/%d for height %d, the chain content gives %v %v %d/%d",
+				out.Idx, out.Weights, out.Precommit, out.Cert, height, want.Idx, want.Weights, want.Precommit, want.Cert)
+		}
+	}
 	return out, nil
+}
+
+// ScriptedParams: BFT validators, weights and thresholds in force for the given height, from the chain content alone.
+func (n *Node) ScriptedParams(height uint32) *NextParams {
+	for h := int64(height) - 1; h > int64(n.Cfg.GenesisHeight); h-- {
+		b, err := n.Chain.DataAccess().GetBlockByHeight(uint32(h))
+		if err != nil {
+			break
+		}
+		if sc := ScriptOf(b.Assets); sc.Next != nil {
+			return sc.Next
+		}
+	}
+	g := n.Cfg.Genesis
+	return &g
 }
 
 // Build constructs a block that is valid on top of the current tip (unless the spec says otherwise).
